@@ -43,6 +43,8 @@ def _write(ck, p, byk):
     pv = Prov(f)
     loops = cfg.natural_loops()
     ser = [(bi, t) for bi, t in f.calls() if def_of(t).endswith("ser::Serialize::serialize")]
+    if not ser and _batch_form(ck, p, f, cfg, pv, rule):
+        return
     ck.floor(rule, "Serialize::serialize calls in Stats::write", len(ser), 1)
     for bi, t in ser:
         key = "Stats::write:serialize"
@@ -224,3 +226,45 @@ def _count(ck, p, byk):
             ok = one
             detail += "; value = total_applied + 1: %s" % one
         ck.decide(rule, "Summary::inc_lint_count", ok, f.span, detail)
+
+
+def _batch_form(ck, p, f, cfg, pv, rule):
+    """Stats::write rewritten to build the text first (serde_json::to_string per record, join) and write it in one call.
+    Decides the one thing that form gets wrong: join separates, it does not terminate.  True when the form was recognised."""
+    from ..util import with_closures
+    tos = [(h, t) for h in with_closures(p, f) for _, t in h.calls() if norm(inst_of(t)).startswith("serde_json::ser::to_") or any(norm(x).startswith("serde_json::ser::to_") for x in _fn_consts(t))]
+    joins = [(bi, t) for bi, t in f.calls() if method(t) in ("join", "concat", "connect")]
+    if not joins:
+        return False
+    key = "Stats::write:newline"
+    sep = None
+    for bi, t in joins:
+        if len(t["args"]) > 1:
+            for o in flatten(pv.trace_operand(t["args"][1])):
+                if o[0] == "const":
+                    sep = o[1]
+            k = t["args"][1].get("k") if isinstance(t["args"][1], dict) else None
+            if k and "const" in k:
+                sep = k["const"]
+    writes = [(wb, wt) for wb, wt in f.calls() if def_of(wt).startswith("std::io::Write::") and method(wt) in ("write_fmt", "write_all", "write")]
+    joined_w = [(wb, wt) for wb, wt in writes if any(o[0] == "call" and o[1] in {j[0] for j in joins} for o in arg_roots(f, pv, wt["args"][1]))]
+    nl_w = [wb for wb, wt in writes if _fmt_literal(f, pv, wt) in ("\n", "\\n")]
+    if not joined_w:
+        return False
+    jb = joined_w[0][0]
+    after = [wb for wb in nl_w if cfg.reaches(jb, [wb])]
+    ok, wit = cfg.every_path_passes(jb, after, to=cfg.returns()) if after and hasattr(cfg, "returns") else (bool(after), None)
+    if not after:
+        ck.refuted(rule, key, f.loc(joined_w[0][1]["ln"]), "the records are written as one text built with join(%s): join puts the separator between the records, not after each, and no newline is written afterwards - a batch does not end in a newline, so the next batch appended to the same log continues its last line and the whole log fails to read" % (sep or "?"))
+    else:
+        ck.undecided(rule, key, f.loc(joined_w[0][1]["ln"]), "batch form (join(%s) then a newline write): per-record format and error propagation of this form are not decided" % (sep or "?"))
+    return True
+
+
+def _fn_consts(t):
+    out = []
+    for a in t.get("args", []):
+        k = a.get("k") if isinstance(a, dict) else None
+        if k and "fn" in k:
+            out.append(k["fn"] if isinstance(k["fn"], str) else str(k["fn"]))
+    return out
